@@ -319,8 +319,15 @@ def compare(ctx, c, r, mv, mism):
             mism.append(('load-result', c, {'model': 'load succeeds', 'impl': ld}))
         return 0
     pred = resumed[1]
+    o = c['cfg']['opts']
+    # hard Gumbel sample under a changed SuperNet temperature: the value is the same one-hot up to the rounding of the
+    # straight-through expression (1 - s) + s, which depends on the temperature: either outcome is accepted
+    ulp = m == 'SN' and o.get('gumbel') and 'temperature' in r['changed'] and views and views[-1][0] and views[-1][2]
     for k, pv in zip(OBS, pred):
         ctx.corr += 1
+        if ulp and pv and not r['eq'][k]:
+            ctx.dist['float-boundary:hard-gumbel-temperature'] += 1
+            continue
         if pv != r['eq'][k]:
             mism.append(('resume-%s-equal' % k, c, {'model_predicts_equal': pv, 'impl_equal': r['eq'][k], 'changed': r['changed'], 'brief': r['brief'].get(k)}))
     skipped = 0
